@@ -248,6 +248,8 @@ func cmdAPI(in, out string) error {
 							if bl, ok := a.(*ast.BasicLit); ok && bl.Kind == token.INT {
 								v, _ := strconv.Atoi(bl.Value)
 								cl.Args = append(cl.Args, v)
+							} else if id, ok := a.(*ast.Ident); ok && id.Name == "x" {
+								cl.Args = append(cl.Args, 0) // the identifier x
 							}
 						}
 						calls = append(calls, cl)
